@@ -19,30 +19,34 @@ RULE = ("random CSPs of 1-6 variables (domains of 1-3 integer values): graph col
 MODELLED = ("DbaComputation (all handlers, weights, counter, postponed-message replay, end flood, IndexError path, "
             "the stop-then-back-to-ok-mode quirk) is modelled as a Net.v proto; every hook call, the final state of "
             "every computation and every in-flight message is compared with the model replaying the same schedule, "
-            "and the model's synchronous-round semantics is compared with the per-cycle values. See MANIFEST text "
-            "for what is a theorem.")
+            "and the model's synchronous-round semantics is compared with the per-cycle values (now also a theorem: "
+            "dba_refines_rounds). See MANIFEST text for what is a theorem.")
 META = dict(
-    level_text=("Proof (Coq), partial. Proved for all problems (any number of variables, constraints of any arity, "
-                "any domains, weights, random draws): (1) in the synchronous-round semantics of the model (built "
-                "from the same node-local handler functions), if every variable is within max_distance hops of "
-                "the stopping computation and infinity > 0, then whenever stop_condition becomes true the "
-                "assignment held by all computations violates no constraint, and it never changes afterwards "
-                "(termination-counter radius lemma + frozen-assignment lemma); (2) for EVERY asynchronous FIFO "
-                "schedule of the network model: no dba_end message exists before some finished(); the first "
-                "finished() of a run is produced while handling an ok/improve message, i.e. by _send_ok, which "
-                "calls it only on a consistent node whose counter reaches max_distance; the model never leaves its "
-                "modelled fragment (no nested postponed replay) unless the node raised IndexError before. "
-                "NOT proved: that every asynchronous schedule yields the per-node results of the synchronous rounds "
-                "(round-synchronisation lemma); this link is checked on every run by replaying the real "
-                "computations' schedules in the model and comparing per-cycle values with the synchronous rounds."),
+    level_text=("Proof (Coq). Proved for all problems (any number of variables, constraints of any arity, any "
+                "domains, weights, random draws) and for EVERY asynchronous per-channel-FIFO schedule of the network "
+                "model (any interleaving of start() calls and deliveries, pre-start buffering, IndexError and "
+                "empty-domain paths included): dba_finish_safe - if the problem is well formed, infinity > 0 and "
+                "every variable of a constraint is within max_distance hops of the computation that calls the "
+                "FIRST finished() of the run, then right after that step the assignment held by ALL computations "
+                "violates no constraint.  It rests on dba_refines_rounds (barrier invariant M_Dba2.Inv: before the "
+                "first finished() every started computation is in the state, and every message in a channel / "
+                "pre-start buffer / postponed list is the message, that the synchronous rounds prescribe; "
+                "neighbours at most one phase apart; postponed messages are exactly next-phase messages; a "
+                "delivered message is always the expected one), on the termination-counter radius lemma and the "
+                "frozen-assignment lemma of the synchronous semantics.  NOT a theorem: the LATER finished() calls "
+                "of the same run (dba_end flood, and the stopped computation that skips one ok? broadcast and "
+                "calls finished() a second time); for those the oracle of the correspondence run evaluates the "
+                "snapshot of all values at EVERY finished() call of the real computations."),
     level_note=("Trusted: Coq kernel/vm_compute, M_Dba.v + Net.v as a rendering of dba.py and of "
                 "MessagePassingComputation.start/on_message, the thread-free netdriver, the harness. Domains are "
                 "non-empty in generated cases; integer costs."),
-    technique="Coq invariant proofs over an executable network model + synchronous abstraction + schedule-replay correspondence",
+    technique="Coq barrier-invariant (round refinement) proof over an executable network model, all schedules + synchronous abstraction + schedule-replay correspondence",
     design_ref="DESIGN.md §5 C09",
 )
 OBLIGATIONS = ["dba_sync_finish_safe_partial", "dba_sync_safe_forever", "dba_counter_radius", "dba_sinit_is_initial",
-               "dba_first_finish_by_counter", "dba_stop_needs_counter", "dba_end_after_finish", "dba_no_nested_replay"]
+               "dba_first_finish_by_counter", "dba_stop_needs_counter", "dba_end_after_finish", "dba_no_nested_replay",
+               "dba_refines_rounds", "dba_phase_gap", "dba_delivery_expected", "dba_postponed_next_phase",
+               "dba_finish_safe"]
 
 
 def _name(i):
@@ -405,13 +409,33 @@ def nontrivial(c, o):
     return any(e[0] == "cyc" for e in o.get("log", []))
 
 
+def _wf_problem(c, o):
+    """hypothesis wf_problem of dba_finish_safe / dba_refines_rounds evaluated on the REAL computations:
+    the constraint list of every computation holds exactly the constraints its variable occurs in,
+    and no constraint has an empty scope"""
+    st = {s["id"]: s for s in o["states"]}
+    for k, cons in enumerate(c["constraints"]):
+        if not cons["scope"]:
+            return False
+    for i in range(c["nvars"]):
+        if _name(i) not in st:
+            continue
+        mine = sorted(int(nm[1:]) for nm in st[_name(i)]["constraints"])
+        occ = sorted(k for k, cons in enumerate(c["constraints"]) if i in cons["scope"])
+        if sorted(set(mine)) != occ:
+            return False
+    return True
+
+
 def histogram(cases, obs):
     h = dict(in_scope=0, out_of_scope=0, runs_with_finish=0, finished_calls=0, double_finish=0, raises=0,
-             cycles=0, max_cycle=0, moves=0, small_infinity=0, sched_steps=0, all_finished=0)
+             cycles=0, max_cycle=0, moves=0, small_infinity=0, sched_steps=0, all_finished=0,
+             in_scope_theorem_hypotheses_hold=0)
     for c, o in zip(cases, obs):
         if "log" not in o:
             continue
         h["in_scope" if in_scope_of_property(c) else "out_of_scope"] += 1
+        h["in_scope_theorem_hypotheses_hold"] += bool(in_scope_of_property(c) and _wf_problem(c, o))
         h["small_infinity"] += c["infinity"] < 100
         fins = [e[1] for e in o["log"] if e[0] == "fin"]
         h["runs_with_finish"] += bool(fins)
